@@ -35,6 +35,10 @@ inductive CandKind : Timex → Prop
   | monthday (m dd : Int) (tmo : Option Time) :
       CandKind { month := some (.int m), dayOfMonth := some (.int dd), time := tmo }
   | timeonly (tm : Time) : CandKind { time := some tm }
+  /-- a definite date (with or without a time): what stage 1 makes of a duration candidate and a datetime
+  constraint; stage 2 treats it as a month-day (the year is overwritten by the years of the range) -/
+  | definite (y m dd : Int) (tmo : Option Time) :
+      CandKind { year := some (.int y), month := some (.int m), dayOfMonth := some (.int dd), time := tmo }
 
 /-- `d` is an instance of the candidate `t`: same weekday / same month and day, and the candidate's time if it has one -/
 def Instance (t : Timex) (d : Date) (tmo : Option Time) : Prop :=
@@ -79,6 +83,33 @@ theorem resolveCand_sound (t : Timex) (hk : CandKind t) (c : DateRange) (hc1 : 1
       · intro m dd hm; simp at hm
       · intro tm htm; exact htm
   | monthday m dd tmo =>
+    intro s hs
+    obtain ⟨yy, d, hd, h1, h2, hf⟩ := resolveMonthDay_sound _ c x (by simp [andChainNotNone]) h s hs
+    simp only [dateFromTimex, toInt_int] at hd
+    have hmk := hd
+    unfold mkDate at hmk
+    simp only at hmk
+    split at hmk
+    · rename_i hpos
+      split at hmk
+      · simp only [pure, Except.pure] at hmk
+        cases hmk
+        rename_i hv
+        have e : ({ month := some (.int m), dayOfMonth := some (.int dd), time := tmo, year := some (.int (yy : Int)) } : Timex) =
+            dateTimex ⟨(yy : Int).toNat, m.toNat, dd.toNat⟩ tmo := by
+          simp [dateTimex, Timex.fromDate]
+          omega
+        rw [e, format_dateTimex _ hv] at hf
+        cases hf
+        refine ⟨_, hv, h1, h2, ⟨?_, ?_, ?_⟩, rfl⟩
+        · intro k hk; simp at hk
+        · intro m' dd' hm' hdd'
+          simp at hm' hdd'; subst hm' hdd'
+          simp; omega
+        · intro tm htm; exact htm
+      · cases hmk
+    · cases hmk
+  | definite y m dd tmo =>
     intro s hs
     obtain ⟨yy, d, hd, h1, h2, hf⟩ := resolveMonthDay_sound _ c x (by simp [andChainNotNone]) h s hs
     simp only [dateFromTimex, toInt_int] at hd
